@@ -339,6 +339,354 @@ example : (mergeChildren [("a", PNode.param [(⟨10, some 1⟩ : Entry Nat)])] [
     = some ["a", "b", "c"] := by decide
 example : ∃ e, addChild [("a", PNode.param [(⟨10, some 1⟩ : Entry Nat)])] "a" (.param []) = .error e := ⟨_, rfl⟩
 
+/-- `merge` of two groups with distinct, disjoint child names succeeds in either direction, and the two merged
+    groups expose the same member under every name at every date (they differ by the order of the members only). -/
+theorem C06_node_merge_comm (cs other : List (String × PNode V)) (hcs : (cs.map (·.1)).Nodup)
+    (hot : (other.map (·.1)).Nodup) (hdisj : ∀ k ∈ other.map (·.1), k ∉ cs.map (·.1)) (d : Int) (k : String) :
+    mergeChildren cs other = .ok (cs ++ other) ∧ mergeChildren other cs = .ok (other ++ cs) ∧
+    (childrenAt (cs ++ other) d).lookup k = (childrenAt (other ++ cs) d).lookup k := by
+  have hdisj' : ∀ k ∈ cs.map (·.1), k ∉ other.map (·.1) := fun k hk ho => hdisj k ho hk
+  refine ⟨mergeChildren_ok cs other hdisj hot, mergeChildren_ok other cs hdisj' hcs, ?_⟩
+  have hnd1 : ((cs ++ other).map (·.1)).Nodup := by
+    rw [List.map_append, List.nodup_append]
+    exact ⟨hcs, hot, fun a ha b hb hab => hdisj b hb (hab ▸ ha)⟩
+  have hnd2 : ((other ++ cs).map (·.1)).Nodup := by
+    rw [List.map_append, List.nodup_append]
+    exact ⟨hot, hcs, fun a ha b hb hab => hdisj a ha (hab ▸ hb)⟩
+  rw [lookup_childrenAt _ d k hnd1, lookup_childrenAt _ d k hnd2, List.lookup_append, List.lookup_append]
+  by_cases h1 : k ∈ cs.map (·.1)
+  · rw [lookup_none_of_not_mem k other (hdisj' k h1)]
+    cases cs.lookup k <;> rfl
+  · rw [lookup_none_of_not_mem k cs h1]
+    cases other.lookup k <;> rfl
+
+/-! ## Keys spelled `YYYY` / `YYYY-MM` / `YYYY-MM-DD`, and construction from YAML-like data -/
+
+/-- A key takes effect on its FIRST day whatever its spelling (`2015` on 1 January 2015, `2015-03` on 1 March),
+    two keys are never confused, and the ticks the model keeps order like the key texts the code compares
+    (`SKey.lt` = the order of the zero-padded texts, a proper prefix being smaller). -/
+theorem C06_key_spelling :
+    (∀ o q sp, fine o sp ≤ 3 * q ↔ o ≤ q) ∧
+    (∀ o o' sp sp', fine o sp = fine o' sp' → o = o' ∧ sp = sp') ∧
+    (∀ a b : SKey, a.WF → b.WF → a.lt b → a.tick < b.tick) :=
+  ⟨fine_le_iff, fine_inj, fine_lt_of_lex⟩
+
+example : (⟨2014, 12, 31⟩ : SKey).tick < (⟨2015, 0, 0⟩ : SKey).tick ∧ (⟨2015, 0, 0⟩ : SKey).tick < (⟨2015, 1, 0⟩ : SKey).tick
+    ∧ (⟨2015, 1, 0⟩ : SKey).tick < (⟨2015, 1, 1⟩ : SKey).tick ∧ (⟨2015, 1, 1⟩ : SKey).tick = 3 * 735599 := by decide +kernel
+example : (⟨2015, 2, 0⟩ : SKey).WF ∧ (⟨2015, 0, 0⟩ : SKey).lt ⟨2015, 1, 0⟩ := by decide +kernel
+
+/-- The flagship statement holds whatever the spellings of the existing keys: after `update(start=a, stop=b,
+    value=v)` on a history in ticks the parameter reads `v` on every day of `[a, b]` and what it read before
+    on every other day, and stays sorted; likewise for the open-ended form. -/
+theorem C06_update_spelled (l : List (Entry V)) (hl : Sorted l) (a b : Int) (v : Option V) :
+    (∀ d, pget (updateFine l a (some b) v) (3 * d) = if a ≤ d ∧ d ≤ b then v else pget l (3 * d)) ∧
+    (a ≤ b → Sorted (updateFine l a (some b) v)) ∧
+    Sorted (updateFine l a none v) ∧
+    (∀ d, pget (updateFine l a none v) (3 * d) = if a ≤ d then v else pget l (3 * d)) :=
+  ⟨pget_updateFine l hl a b v, fun hab => sorted_updateFine l hl a b hab v,
+    (updateFine_open l hl a v).1, (updateFine_open l hl a v).2⟩
+
+-- keys `2015` (tick 3·735599 − 2), `2015-03-01`; update of 1 Jan .. 31 Jan 2015: the text `2015` sorts before
+-- `2015-01-01` and stays in the list, shadowed by the new entry; its value is re-opened on 1 February
+example : updateFine [(⟨3 * 735658, some 2⟩ : Entry Nat), ⟨3 * 735599 - 2, some 1⟩] 735599 (some 735629) (some 9)
+    = [⟨3 * 735658, some 2⟩, ⟨3 * 735630, some 1⟩, ⟨3 * 735599, some 9⟩, ⟨3 * 735599 - 2, some 1⟩] := by decide +kernel
+
+/-- What each accepted spelling of a dated value denotes (`ParameterAtInstant.__init__` and the `expected`
+    test of `Parameter.__init__`). -/
+theorem C06_data_items (t : String) (b : Bool) (y : Y) (tok : Option String) (hy : y.valTok = some tok) :
+    itemOf (.num t) = .ok (.value (some t)) ∧ itemOf .null = .ok (.value none) ∧
+    itemOf (.bool b) = .ok (.value (some (if b then "T" else "F"))) ∧
+    itemOf (.str "expected") = .ok .expected ∧
+    itemOf (.map [(.name "value", y)]) = .ok (.value tok) ∧
+    itemOf (.map [(.name "value", y), (.name "metadata", .map [])]) = .ok (.value tok) ∧
+    itemOf (.map [(.name "unit", .str "u"), (.name "value", y)]) = .ok (.value tok) ∧
+    itemOf (.map [(.name "expected", .bool true)]) = .ok .expected ∧
+    (∃ e, itemOf (.str t) = .error e) ∨ t = "expected" := by
+  by_cases ht : t = "expected"
+  · exact Or.inr ht
+  · refine Or.inl ⟨rfl, rfl, rfl, rfl, ?_, ?_, ?_, rfl, ?_⟩
+    · simp [itemOf, lookupName, YKey.isName, keysWithin, YKey.within, atInstantKeys, metaOk, hy]
+    · simp [itemOf, lookupName, YKey.isName, keysWithin, YKey.within, atInstantKeys, metaOk, hy]
+    · simp [itemOf, lookupName, YKey.isName, keysWithin, YKey.within, atInstantKeys, metaOk, hy]
+    · simp [itemOf, ht]
+
+/-- Which object `helpers._parse_child` builds: a mapping with `values` is a Parameter, else one with
+    `brackets` a ParameterScale, else one whose keys are all instants a Parameter, else a ParameterNode;
+    anything that is not a mapping is refused. -/
+theorem C06_data_kind (rat : String → Option Rat) (kvs : List (YKey × Y)) (t : PNode String)
+    (h : parseChild rat (.map kvs) = .ok t) :
+    (hasName kvs "values" = true → ∃ l, t = .param l) ∧
+    (hasName kvs "values" = false → hasName kvs "brackets" = true → ∃ m bs, t = .scale m bs) ∧
+    (hasName kvs "values" = false → hasName kvs "brackets" = false → kvs.all (fun p => p.1.isInstant) = true →
+        ∃ l, t = .param l) ∧
+    (hasName kvs "values" = false → hasName kvs "brackets" = false → kvs.all (fun p => p.1.isInstant) = false →
+        ∃ cs, t = .node cs) ∧
+    (∀ y, (∀ kvs', y ≠ Y.map kvs') → ∃ e, parseChild rat y = .error e) := by
+  refine ⟨?_, ?_, ?_, ?_, ?_⟩
+  · intro hv
+    simp only [parseChild, hv, if_true] at h
+    cases hb : buildParam kvs with
+    | error e => rw [hb] at h; cases h
+    | ok l => rw [hb] at h; cases h; exact ⟨l, rfl⟩
+  · intro hv hb
+    simp only [parseChild, hv, hb, Bool.false_eq_true, if_false, if_true] at h
+    split at h
+    · cases h
+    · split at h
+      · cases h
+      · cases hs : scaleBrackets rat kvs with
+        | error e => rw [hs] at h; cases h
+        | ok bs => rw [hs] at h; cases h; exact ⟨_, bs, rfl⟩
+  · intro hv hb ha
+    simp only [parseChild, hv, hb, ha, Bool.false_eq_true, if_false, if_true] at h
+    cases hp : buildParam kvs with
+    | error e => rw [hp] at h; cases h
+    | ok l => rw [hp] at h; cases h; exact ⟨l, rfl⟩
+  · intro hv hb ha
+    simp only [parseChild, hv, hb, ha, Bool.false_eq_true, if_false] at h
+    split at h
+    · cases h
+    · cases hn : nodeKids rat kvs [] with
+      | error e => rw [hn] at h; cases h
+      | ok cs => rw [hn] at h; cases h; exact ⟨cs, rfl⟩
+  · intro y hy
+    cases y with
+    | null => exact ⟨_, rfl⟩
+    | bool b => exact ⟨_, rfl⟩
+    | num t => exact ⟨_, rfl⟩
+    | str s => exact ⟨_, rfl⟩
+    | list xs => exact ⟨_, rfl⟩
+    | map kvs' => exact absurd rfl (hy kvs')
+
+/-- Construct, then read: a mapping whose keys are instant texts (any spelling, any declaration order,
+    distinct), each with a readable value, builds a parameter whose dates are strictly decreasing and whose
+    value on day `q` is that of the declared (non-`expected`) key with the greatest tick among those whose
+    first day is on or before `q` — `None` when every such key starts later. -/
+theorem C06_data_get (rat : String → Option Rat) (kvs : List (YKey × Y)) (its : List (Int × Item String))
+    (hi : paramItems kvs = .ok its) (hnd : (kvs.map (fun p => keyTick p.1)).Nodup) (q : Int) :
+    ∃ l, parseChild rat (.map kvs) = .ok (.param l) ∧ Sorted l ∧
+      (∀ o sp t y v, (YKey.date o sp t, y) ∈ kvs → itemOf y = .ok (.value v) → o ≤ q →
+        (∀ o' sp' t' y' v', (YKey.date o' sp' t', y') ∈ kvs → itemOf y' = .ok (.value v') → o' ≤ q →
+          fine o' sp' ≤ fine o sp) → pget l (3 * q) = v) ∧
+      ((∀ o sp t y v, (YKey.date o sp t, y) ∈ kvs → itemOf y = .ok (.value v) → q < o) → pget l (3 * q) = none) := by
+  obtain ⟨hd, hkeys, hmem⟩ := paramItems_spec kvs its hi
+  have hnd' : (its.map (·.1)).Nodup := by rw [hkeys]; exact hnd
+  obtain ⟨hs, _⟩ := C06_sorted_init its hnd'
+  obtain ⟨g1, g2⟩ := C06_init_get its hnd' (3 * q)
+  refine ⟨ofData its, parseChild_dates rat kvs hd its hi, hs, ?_, ?_⟩
+  · intro o sp t y v hm hy hq hmax
+    apply g1 (fine o sp) v ((hmem _).mpr ⟨o, sp, t, y, _, hm, hy, rfl⟩) ((fine_le_iff o q sp).mpr hq)
+    intro d' v' hm' hd'
+    obtain ⟨o', sp', t', y', i', hm'', hy', heq⟩ := (hmem _).mp hm'
+    simp only [Prod.mk.injEq] at heq
+    obtain ⟨rfl, rfl⟩ := heq
+    exact hmax o' sp' t' y' v' hm'' hy' ((fine_le_iff o' q sp').mp hd')
+  · intro hall
+    apply g2
+    intro d v hm
+    obtain ⟨o, sp, t, y, i, hm', hy, heq⟩ := (hmem _).mp hm
+    simp only [Prod.mk.injEq] at heq
+    obtain ⟨rfl, rfl⟩ := heq
+    have := hall o sp t y v hm' hy
+    have h2 := fine_le_iff o q sp
+    omega
+
+/-- the declaration with `values:` (description, metadata, unit, reference, documentation beside it) builds
+    the same parameter as the mapping under `values` alone -/
+theorem C06_data_values (rat : String → Option Rat) (kvs vkvs : List (YKey × Y)) (x : YKey × Y)
+    (hne : vkvs = x :: vkvs.tail) (hv : lookupName kvs "values" = some (.map vkvs))
+    (hk : keysWithin kvs (commonKeys ++ ["values"]) = true) (hm : metaOk kvs = true)
+    (its : List (Int × Item String)) (hi : paramItems vkvs = .ok its) :
+    parseChild rat (.map kvs) = parseChild rat (.map vkvs) := by
+  rw [parseChild_values rat kvs vkvs x hne hv hk hm its hi,
+    parseChild_dates rat vkvs (paramItems_spec vkvs its hi).1 its hi]
+
+/-- the values list a successful construction of a parameter yields -/
+def builtEntries (r : Except String (PNode String)) : Option (List (Entry String)) :=
+  match r with
+  | .ok (.param l) => some l
+  | .ok (.scale _ _) => none
+  | .ok (.node _) => none
+  | .error _ => none
+
+/-- the child names a successful construction of a group yields -/
+def builtNames (r : Except String (PNode String)) : Option (List String) :=
+  match r with
+  | .ok (.node cs) => some (cs.map (·.1))
+  | .ok (.param _) => none
+  | .ok (.scale _ _) => none
+  | .error _ => none
+
+example : builtEntries (parseChild (fun _ => none) (.map [(.date 735964 .year "2016", .map [(.name "value", .num "7")]),
+      (.date 735599 .day "2015-01-01", .num "5"), (.date 735599 .month "2015-01", .str "expected")]))
+    = some [⟨3 * 735964 - 2, some "7"⟩, ⟨3 * 735599, some "5"⟩] := by decide +kernel
+example : builtEntries (parseChild (fun _ => none) (.map [(.name "description", .str "x"), (.name "values", .map [(.date 735599 .day "2015-01-01", .num "5")])]))
+    = some [⟨3 * 735599, some "5"⟩] := by decide +kernel
+example : (parseChild (fun _ => none) (.map [(.name "values", .map [])])).toOption = none
+    ∧ (parseChild (fun _ => none) (.map [(.date 735599 .day "2015-01-01", .map [(.name "valeu", .num "5")])])).toOption = none
+    ∧ (parseChild (fun _ => none) (.map [(.int 2015, .num "5")])).toOption = none
+    ∧ (parseChild (fun _ => none) (.num "5")).toOption = none := by decide +kernel
+
+/-- A group built from a mapping: its children are the non-reserved keys, in order, each named by the text of
+    its key (`str(key)`: an integer key by its decimal text) and built from its own data; the names are
+    distinct (a repeated name is refused); hence at every date the group exposes exactly those keys whose
+    child is defined at that date. -/
+theorem C06_data_node (rat : String → Option Rat) (kvs : List (YKey × Y)) (cs : List (String × PNode String))
+    (h : parseChild rat (.map kvs) = .ok (.node cs)) (d : Int) :
+    cs.map (·.1) = (kvs.filter (fun p => !p.1.within commonKeys)).map (·.1.text) ∧
+    (∀ k c, (k, c) ∈ cs → ∃ p ∈ kvs, p.1.within commonKeys = false ∧ p.1.text = k ∧ parseChild rat p.2 = .ok c) ∧
+    (cs.map (·.1)).Nodup ∧
+    (childrenAt cs d).map (·.1) = (cs.filter (fun p => p.2.definedAt d)).map (·.1) := by
+  have hk : nodeKids rat kvs [] = .ok cs := by
+    simp only [parseChild] at h
+    split at h
+    · cases hb : buildParam kvs with
+      | error e => rw [hb] at h; cases h
+      | ok l => rw [hb] at h; cases h
+    · split at h
+      · split at h
+        · cases h
+        · split at h
+          · cases h
+          · cases hs : scaleBrackets rat kvs with
+            | error e => rw [hs] at h; cases h
+            | ok bs => rw [hs] at h; cases h
+      · split at h
+        · cases hb : buildParam kvs with
+          | error e => rw [hb] at h; cases h
+          | ok l => rw [hb] at h; cases h
+        · split at h
+          · cases h
+          · cases hn : nodeKids rat kvs [] with
+            | error e => rw [hn] at h; cases h
+            | ok cs' => rw [hn] at h; cases h; rfl
+  obtain ⟨new, h1, h2, h3, h4⟩ := nodeKids_spec rat kvs [] cs hk
+  simp only [List.nil_append] at h1
+  subst h1
+  exact ⟨h2, h3, h4 List.nodup_nil, keys_childrenAt cs d⟩
+
+example : builtNames (parseChild (fun _ => none) (.map [(.name "a", .map [(.date 735599 .day "2015-01-01", .num "1")]),
+      (.name "description", .str "x"), (.int 2, .map [(.date 735600 .day "2015-01-02", .num "2")])]))
+    = some ["a", "2"] := by decide +kernel
+example : (parseChild (fun _ => none) (.map [(.name "2", .map [(.name "x", .map [])]), (.int 2, .map [(.name "x", .map [])])])).toOption.isNone
+    = true := by decide +kernel
+
+/-- The children a group does NOT expose at `d` are exactly those not defined at `d`, and reaching for one
+    (`node_at.k`) raises an error that names it: `<node name>[k]`. -/
+theorem C06_node_absent (name : String) (cs : List (String × PNode V)) (d : Int) :
+    (absentAt name cs d).map (·.1) = (cs.filter (fun p => !p.2.definedAt d)).map (·.1) ∧
+    (∀ k n, (k, n) ∈ absentAt name cs d → n = composeItem name k) ∧
+    ((childrenAt cs d).map (·.1)).length + (absentAt name cs d).length = cs.length := by
+  refine ⟨(absentAt_keys name cs d).1, (absentAt_keys name cs d).2, ?_⟩
+  rw [List.length_map]
+  exact length_childrenAt_absentAt name cs d
+
+example : absentAt "n" [("a", PNode.param [(⟨10, some 1⟩ : Entry Nat)]), ("b", .param [⟨12, none⟩, ⟨5, some 2⟩])] 12
+    = [("b", "n[b]")] := by decide
+
+/-- `get_descendants()` of a group: every child followed by its own descendants, in order; adding or merging
+    children appends theirs. -/
+theorem C06_descendants (name : String) (cs cs' : List (String × PNode V)) (k : String) (c : PNode V) :
+    (PNode.node ((k, c) :: cs)).descNames name
+      = composeChild name k :: (c.descNames (composeChild name k) ++ (PNode.node cs).descNames name) ∧
+    (PNode.node (cs ++ cs')).descNames name = (PNode.node cs).descNames name ++ (PNode.node cs').descNames name ∧
+    (PNode.param ([] : List (Entry V))).descNames name = [] := by
+  refine ⟨by simp [PNode.descNames, descAll], ?_, by simp [PNode.descNames]⟩
+  simp only [PNode.descNames]
+  exact descAll_append name cs cs'
+
+example : (PNode.node [("a", PNode.param ([] : List (Entry Nat))), ("g", .node [("x", .param []), ("s", .scale false [])])]).descNames "n"
+    = ["n.a", "n.g", "n.g.x", "n.g.s"] := by decide
+
+/-- A scale built from data: `brackets` must be a list, every key reserved or `brackets`; the scale is of the
+    single-amount kind iff `metadata.type` is `single_amount`; it has one bracket per element of the list, in order. -/
+theorem C06_data_scale (rat : String → Option Rat) (kvs : List (YKey × Y)) (m : Bool) (bs : List Bracket)
+    (hv : hasName kvs "values" = false) (h : parseChild rat (.map kvs) = .ok (.scale m bs)) :
+    m = isSingleAmount kvs ∧ scaleBrackets rat kvs = .ok bs ∧ keysWithin kvs (commonKeys ++ ["brackets"]) = true ∧
+    (∀ xs, bracketList rat xs = .ok bs → bs.length = xs.length) := by
+  simp only [parseChild, hv, Bool.false_eq_true, if_false] at h
+  split at h
+  · split at h
+    · cases h
+    · rename_i hk
+      split at h
+      · cases h
+      · cases hs : scaleBrackets rat kvs with
+        | error e => rw [hs] at h; cases h
+        | ok bs' =>
+          rw [hs] at h
+          simp only [Except.ok.injEq, PNode.scale.injEq] at h
+          obtain ⟨rfl, rfl⟩ := h
+          exact ⟨rfl, rfl, by simpa using hk, fun xs hx => bracketList_length rat xs _ hx⟩
+  · split at h
+    · cases hb : buildParam kvs with
+      | error e => rw [hb] at h; cases h
+      | ok l => rw [hb] at h; cases h
+    · split at h
+      · cases h
+      · cases hn : nodeKids rat kvs [] with
+        | error e => rw [hn] at h; cases h
+        | ok cs => rw [hn] at h; cases h
+
+/-! ## Directories of YAML files -/
+
+/-- the mapping entry a YAML file stands for: its stem, its content -/
+def fileAsPair : DirEnt → YKey × Y
+  | .file stem _ y => (.name stem, y)
+  | .dir name _ => (.name name, .map [])
+
+/-- Loading a directory whose entries are YAML files (`.yaml` / `.yml`, no `index`, no stem that is a reserved
+    key) builds the same group as the mapping `{stem: content, …}` in listing order — members, names and
+    refusals (a stem used twice: `a.yaml` beside `a.yml`) included. -/
+theorem C06_dir_files (rat : String → Option Rat) (es : List DirEnt) (acc : List (String × PNode String))
+    (hfiles : ∀ e ∈ es, ∃ stem ext y, e = DirEnt.file stem ext y ∧ yamlExts.contains ext = true ∧
+      (stem == "index") = false ∧ commonKeys.contains stem = false) :
+    buildDir rat es acc = nodeKids rat (es.map fileAsPair) acc := by
+  induction es generalizing acc with
+  | nil => simp [buildDir, nodeKids]
+  | cons e r ih =>
+    obtain ⟨stem, ext, y, rfl, hext, hidx, hres⟩ := hfiles _ (List.mem_cons_self ..)
+    have hr : ∀ e ∈ r, ∃ stem ext y, e = DirEnt.file stem ext y ∧ yamlExts.contains ext = true ∧
+        (stem == "index") = false ∧ commonKeys.contains stem = false :=
+      fun e he => hfiles e (List.mem_cons_of_mem _ he)
+    simp only [buildDir, buildEnt, hext, Bool.not_true, Bool.false_eq_true, if_false, hidx, List.map_cons, fileAsPair,
+      nodeKids, YKey.within, hres, YKey.text]
+    cases parseChild rat y with
+    | error e => rfl
+    | ok c =>
+      simp only
+      cases addChild acc stem c with
+      | error e => rfl
+      | ok acc' => exact ih acc' hr
+
+/-- Files of other types are ignored; `index.yaml` / `index.yml` adds no member and is accepted exactly when
+    its content is empty or a mapping of reserved keys (with a mapping for `metadata`); a sub-directory is a
+    member group built from its own listing. -/
+theorem C06_dir_entries (rat : String → Option Rat) (stem ext name : String) (y : Y) (sub r : List DirEnt)
+    (acc : List (String × PNode String)) :
+    (yamlExts.contains ext = false → buildDir rat (.file stem ext y :: r) acc = buildDir rat r acc) ∧
+    (yamlExts.contains ext = true → indexOk y = true → buildDir rat (.file "index" ext y :: r) acc = buildDir rat r acc) ∧
+    (yamlExts.contains ext = true → indexOk y = false → ∃ e, buildDir rat (.file "index" ext y :: r) acc = .error e) ∧
+    (∀ cs, buildDir rat sub [] = .ok cs → name ∉ acc.map (·.1) →
+      buildDir rat (.dir name sub :: r) acc = buildDir rat r (acc ++ [(name, .node cs)])) := by
+  refine ⟨?_, ?_, ?_, ?_⟩
+  · intro h; simp only [buildDir, buildEnt, h, Bool.not_false, if_true]
+  · intro h hi; simp only [buildDir, buildEnt, h, hi, Bool.not_true, Bool.false_eq_true, if_false, beq_self_eq_true, if_true]
+  · intro h hi
+    refine ⟨"index: unexpected property", ?_⟩
+    simp only [buildDir, buildEnt, h, hi, Bool.not_true, Bool.false_eq_true, if_false, beq_self_eq_true, if_true]
+  · intro cs hcs hn
+    have := (addChild_ok_iff acc name (.node cs)).1.mpr hn
+    simp only [buildDir, buildEnt, hcs, this]
+
+example : builtNames ((buildDir (fun _ => none) [.file "a" ".yaml" (.map [(.date 735599 .day "2015-01-01", .num "1")]),
+      .file "index" ".yml" (.map [(.name "description", .str "x")]), .file "notes" ".txt" (.num "5"),
+      .dir "sub" [.file "c" ".yml" (.map [])]] []).map .node) = some ["a", "sub"] := by decide +kernel
+example : ((buildDir (fun _ => none) [.file "a" ".yaml" (.map []), .file "a" ".yml" (.map [])] []).toOption.isNone
+    ∧ (buildDir (fun _ => none) [.file "a" ".yaml" (.map []), .dir "a" []] []).toOption.isNone
+    ∧ (buildDir (fun _ => none) [.file "index" ".yaml" (.map [(.name "foo", .num "1")])] []).toOption.isNone) = true := by
+  decide +kernel
+
 /-! ## Scales -/
 
 /-- Which class of scale is built at `d`. -/
